@@ -2,6 +2,7 @@ import RisorModel.Util
 import RisorModel.C10.Model
 import RisorModel.C10.ModelExt
 import RisorModel.C10.ModelCall
+import RisorModel.C10.ModelWide
 /-!
 Line-protocol front end of the C10 model (requests after the leading `C10` field).
 
@@ -35,6 +36,9 @@ Line-protocol front end of the C10 model (requests after the leading `C10` field
        cop    := sp:p | w:w:t | o:t:S      S := c (call) | t (call under try) | de:k | df:k (defer an effect | an effect and a raised error) | e:k (effect) | r:v (return) | x:k (raise)
        thread := t:<effects k.k.k | ->:(run | v<n> | e<n>):reg:ran:<frames active>
        wait obs := B | v<n> | e<n>
+  wide <vars,…> <wop,wop,…>           → <obs,…> TAB <final vars v.v.v>        (call statements with any number of arguments; spawned calls run after the last statement)
+       wop := a:i:v | d:req:D.D.D:A.A.A (direct call) | s:req:D.D.D:A.A.A (spawned call)     D.D.D = the default values of the parameters after the `req` required ones (`-` if none), A as in spawn
+       obs := p:v.v.v (the parameter values the call binds) | E (the arity error is raised)     one per call statement
 -/
 namespace Risor.C10
 open Risor.Util
@@ -101,6 +105,15 @@ def parseTOp (s : String) : Option TOp :=
   | ["k", sl, i, v] => do pure (.poke (← natOf sl) (← natOf i) (← intOf v))
   | ["run", t] => do pure (.runT (← natOf t))
   | ["w", t] => do pure (.wait (← natOf t))
+  | _ => none
+
+def parseWOp (s : String) : Option WOp :=
+  match s.splitOn ":" with
+  | ["a", i, v] => do pure (.assign (← natOf i) (← intOf v))
+  | [k, req, defs, args] =>
+    if k == "d" || k == "s" then do
+      pure (.call (k == "s") { req := ← natOf req, defs := ← (listOf "." defs).mapM intOf } (← (listOf "." args).mapM parseArg))
+    else none
   | _ => none
 
 def showInts (vs : List Int) : String :=
@@ -327,6 +340,12 @@ def handle : List String → String
           ++ toString c.reg ++ ":" ++ toString c.ran ++ ":" ++ toString c.frames.length
       ";".intercalate threads ++ "\t" ++ joinC (cnWaits {} ops)
     | none => "error\tbad-request"
+  | ["wide", vars, ops] =>
+    match (listOf "," vars).mapM intOf, (listOf "," ops).mapM parseWOp with
+    | some vars, some ops =>
+      let (obs, sf) := wideRun { vars := vars } ops
+      joinC (obs.map fun o => match o with | some ps => "p:" ++ showInts ps | none => "E") ++ "\t" ++ showInts sf.vars
+    | _, _ => "error\tbad-request"
   | _ => "error\tunknown-request"
 
 end Risor.C10
